@@ -32,6 +32,27 @@ CHECKS = {
         "plus simulated 12-operation histories; bin histdrv performs each on the real code and file bytes + item lists are compared after every step.",
    note="Trusted: TLC, the harness' projection (file lines with `#<digits>` normalised, items as (text, dirty, has timestamp)). Single-line commands; file private to the case.",
    ref="DESIGN.md section 6 C20, Appendix D"),
+ "C17": dict(level=MC, thorough=True, tech="TLA+ Jobs.tla (all interleavings of task begin/end with launch/wait/poll) + trace validation of hook events (Trace_Jobs.tla) + scenario replay over finishing permutations",
+   text="TLC explores every interleaving of up to 4 (thorough 6) background tasks with launches, wait, wait %n and completion polls and checks DistinctIds, WaitComplete, "
+        "WaitedEnded, NoLostJob and that wait returns; the real shell is run on job sets realising every finishing permutation (n <= 4) from top level / functions / loops, "
+        "as file and over stdin, on 1 / 2 / all CPUs and with pause points, and every execution's hook events (job_add, task_begin/end, wait_all_begin/end, job_waited, job_remove; "
+        "sequence numbers taken under the sink lock) are validated by TLC as a behaviour of Jobs.tla with all invariants evaluated after every event.",
+   note="Trusted: TLC, the hook placement (task_end is emitted by the task after its body and before its join handle is ready). A corrupted trace (task_end moved after wait_all_end) must be rejected in every run (self-test). "
+        "Stopped jobs, process groups, terminals not modelled.",
+   ref="DESIGN.md section 6 C17"),
+ "C11": dict(level=MC, thorough=True, tech="TLA+ Pipeline.tla (bounded pipes, end holders, spawn/wait order; deadlock + liveness for all stage-kind/payload/early-exit configurations) + trace validation (Trace_Pipeline.tla) + replay with real sizes against bash",
+   text="TLC checks InOrderOnce, AllDelivered, NoLeakedEnds, SpawnBeforeWait, deadlock freedom and termination for every configuration of 3 (thorough 4) stages x payloads around the pipe capacity x early-exit readers, "
+        "and shows that the former as-built rule (compound stage run inline) deadlocks; the same configurations are run with real stage kinds and 10 B - 1 MiB (8 MiB) payloads in brush and bash "
+        "(byte count, checksum, $?, PIPESTATUS, completion), with pause points after each spawn / before wait; every run's pl_* hook events are validated against the spec.",
+   note="Trusted: TLC, bash 5.2.15 for data and statuses, gen/cksum helpers. With an early-exit consumer an upstream PIPESTATUS entry may be 0 or 141 (both are behaviours of the model). Process groups / terminals not modelled.",
+   ref="DESIGN.md section 6 C11, Appendix G"),
+ "C18": dict(level=MC, thorough=True, tech="TLA+ Stacks.tla (dispatch paths x fault points keep scope/call stacks balanced) + trace validation of scope/frame/boundary hook events (Trace_Stacks.tla) + N-fold repetition with resource probes",
+   text="TLC checks on Stacks.tla that every command dispatch path and fault point (temporary-assignment error, refused function call, failing body, eval/source/trap frames) nested to depth 4 leaves the scope stack "
+        "and the call stack exactly as deep at every command boundary as when the program began; TLC-generated programs with a fault leaf at every position are then repeated N times in one shell: identical output per "
+        "iteration, no growth of descriptors / children, and every run's scope_push/pop, frame_push/pop, prog_begin/cmd_done/prog_end events are validated by TLC against the spec (pop finds the expected kind; depths at every boundary).",
+   note="Trusted: TLC, the hook placement in env.rs / callstack.rs / Program::execute, /proc for descriptor and child counts (slack of 3 descriptors / 2 children for asynchronous reaping; a per-iteration leak grows by >= N-1). "
+        "A trace with one scope_pop removed must be rejected in every run (self-test).",
+   ref="DESIGN.md section 6 C18"),
 }
 PENDING_REASON = "check not built yet in this round (planned, see DESIGN.md section 12); no claim is made"
 
